@@ -105,13 +105,16 @@ PROPS["C08"] = {
 }
 
 PROPS["C10"] = {
-    "kani": ["c10_layout"],
-    "verus": [],
-    "technique": "Kani/CBMC full-domain harnesses on constraint clamp and alignment arithmetic; the View-tree induction is not mechanised",
+    "kani": ["c10_layout", "c10_flex"],
+    "verus": ["surface"],
+    "technique": "Kani/CBMC full-domain harnesses on constraint clamp and alignment arithmetic; Verus contract on Layout::apply_to over the C07 window model; the View-tree induction is not mechanised",
     "level_text": "Proved (Kani, all usize): Size::clamp / BoxConstraint::clamp return a size inside every constraint with min <= max (identity inside), loosen/loose/tight as documented; "
                   "Align::align places the (clamped) child inside the space for Start/Center/End/Expand/Shrink and never panics. These are the functions every leaf and container view ends its layout with. "
+                  "Proved (Verus, unit surface): Layout::apply_to - the call every view's render starts with - returns a view on the same data whose window is the sub-window rows pos.row..+height, cols pos.col..+width of the "
+                  "surface it was given, clipped to it (window model of C07), so whatever a view paints through it stays inside the surface it received and inside the rectangle its layout records. "
+                  "flex_layout with zero children terminates without panic within the constraint (Kani, bounded stand-in). "
                   "Flex distribution, Container margin arithmetic, the layout tree (TreeStore), apply_to/FindPath, Frame/ScrollBar/Tag/Dynamic and rendering are NOT decided (CBMC does not get through the SmallVec layout arena; Verus has no trait-object support for View).",
-    "level_note": "Partial: only the clamp/align arithmetic is under contract. Known finding class outside reach: flex_layout with zero children and SpaceAround divides by zero (seen by reading, not decidable by the machinery).",
+    "level_note": "Partial: clamp/align arithmetic, Layout::apply_to and the empty flex are under contract; flex with children, Container margins and the layout arena are not.",
     "assumptions": [
         "the modular View contract (children stay within the constraint they are given) is stated in DESIGN.md but not mechanised",
         "Container::layout, flex_layout, Layout::apply_to, FindPath, Text/Image/glyph views, JSON-built trees: outside both verifiers here",
@@ -120,11 +123,12 @@ PROPS["C10"] = {
 
 PROPS["C11"] = {
     "kani": ["c11_kitty"],
-    "verus": [],
+    "verus": ["base64enc"],
     "technique": "Kani function contracts (proof_for_contract + stub_verified) on the placement-id functions",
     "level_text": "Proved (Kani contracts, all positions below 65536): kitty_placement_id == row + col*65536 <= 2^32-1, kitty_placement_to_pos inverts it, ids are injective - so erase(img, pos) addresses exactly the "
                   "placement draw(img, pos) creates (both call the same function on the same position). Payload = base64 of row-major RGBA rests on C07 (iteration order) + C14 (encoder). "
-                  "Chunking into <= 4096-byte pieces with m= flags, the transmit-once HashMap cache and the control strings (core::fmt, dyn Write) are NOT decided.",
+                  "Proved (Verus, unit base64enc): the payload encoder emits exactly b64(bytes) for any write partition, its length is 4*ceil(n/3) (a multiple of four), and cutting such a payload into 4096-byte pieces gives pieces that are multiples of four with only the last one shorter (lemma_chunks_4096) - the arithmetic the chunk loop relies on. "
+                  "That draw() runs exactly that loop with m = (index + 1 < count), the transmit-once HashMap cache, re-transmission on error and the control strings (core::fmt, dyn Write) are NOT decided.",
     "level_note": "Partial: identifiers only. KittyImageHandler::draw/erase/handle bodies are assumed.",
     "assumptions": [
         "draw and erase derive the placement id by calling kitty_placement_id(pos) (read from the source)",
@@ -135,16 +139,17 @@ PROPS["C11"] = {
 
 PROPS["C13"] = {
     "kani": ["c13_octree"],
-    "verus": ["kdtree"],
+    "verus": ["kdtree", "octleaf"],
     "technique": "Verus: recursive contract on the k-d tree search (exact nearest neighbour for every well-formed tree, unbounded); Kani/CBMC full-domain harnesses on octree path/summary/leaf/error arithmetic",
     "level_text": "Proved (Verus, every tree size, every query colour): KDTree::find's find_rec returns a node of the subtree whose squared RGB distance is <= that of every node of the subtree, for every tree satisfying the "
                   "k-d invariant (children precede parents, left <= split <= right per dimension); dist is the squared Euclidean distance without overflow. Proved (Kani, complete): OcTreePath yields the 8 MSB-first child indices; "
-                  "OcTreeInfo::join is a commutative monoid; leaf colour is the channel mean and fits a byte; ColorError::add clamps to 0..=255. "
+                  "OcTreeInfo::join is a commutative monoid; ColorError::add clamps to 0..=255. Proved (Verus): leaf accumulation keeps acc <= 255*count without overflow and to_rgba is the per-channel floor of the mean, always a byte. "
                   "That KDTree::new establishes the invariant, octree insertion/pruning/palette size, sampling and dithering order are NOT decided.",
     "level_note": "Assumed: kd_wf(KDTree::new(colors)) (sort_by_key + recursion on sub-slices is outside Verus; CBMC drowns in std sort), OcTree::{insert,prune,build_palette}, Image::quantize loops.",
     "assumptions": [
         "the tree invariant kd_wf is an assumption about KDTree::new, not proved",
-        "i32::pow(2) on channel differences specified as x*x",
+        "i32::pow(2) on channel differences specified as x*x; rasterize::RGBA replaced by an opaque stand-in with the contract of new/to_rgb (N18)",
+        "OcTreeLeaf::to_rgba is called on leaves with color_count > 0 (precondition; leaves in the tree are created by from_rgba)",
         "palette bounds (1..=max(requested,8)), losslessness for small colour counts, sampling rule and Floyd-Steinberg diffusion order: not under contract",
     ],
 }
@@ -185,7 +190,7 @@ PROPS["C16"] = {
 
 PROPS["C20"] = {
     "kani": ["c20_colors"],
-    "verus": [],
+    "verus": ["c20sep"],
     "technique": "Kani/CBMC full-domain (bit-precise f32) harnesses on the table search",
     "level_text": "Proved (Kani, every non-NaN f32): nearest(v, CUBE), nearest(v, GREYS) and nearest(v, [0,.33,.66,1]) return an arg-min of |v - table[j]| in f32 arithmetic; the tables are strictly increasing; "
                   "the grey level is monotone in the luminance. That per-channel nearest + nearest-to-mean + the final distance comparison give the global optimum over the 240 entries (separability), "
@@ -194,7 +199,24 @@ PROPS["C20"] = {
     "assumptions": [
         "hand-typed linear-light tables equal LinColor::from of the 30 palette levels: assumed",
         "LinColor::distance is Euclidean in linear RGB and srgb->linear is monotone: assumed contracts of the rasterize dependency",
-        "global optimality over 240 entries follows from separability of squared Euclidean distance (argument in DESIGN.md, not mechanised)",
+        "the separability lemmas idealise f32 as exact arithmetic (near-ties within one ulp are not decided) and are not linked mechanically to the body of color_sgr_encode (which needs rasterize + core::fmt)",
+    ],
+}
+
+PROPS["C09"] = {
+    "kani": [],
+    "verus": ["celllayout"],
+    "technique": "Verus contract on the single layout routine Cell::layout (shared by measuring and writing), extracted verbatim; containment argument through the C07 contracts is by reading, not mechanised",
+    "level_text": "Proved (Verus, every cell size, width, wrap mode, cursor and tracked size): Cell::layout keeps the writer invariant cursor.col <= max_width and size.width <= max_width, the tracked size is a "
+                  "monotonically growing bounding box that covers every placed cell, a cell is placed at the cursor when it fits, else (wrapping only) at column 0 of the next row, and nothing is placed exactly for "
+                  "newline / CR / tab, zero-sized cells and overflow with wrapping disabled; newline, CR and tab move the cursor as specified; no arithmetic overflow for screen-sized numbers. "
+                  "TerminalWriter::put_cell writes only through surf.get_mut(pos) and data[shape.offset(in-window position)], which C07 proves in-window - that step, the glyph fallback, Text::layout/render agreement "
+                  "('every printable cell exactly once in reading order') and chunk independence of the io::Write adapters (DFA/UTF-8 decoders) are NOT decided.",
+    "level_note": "Thin: only Cell::layout is under contract; Cell::size (unicode-width, glyph, image geometry) is an uninterpreted function; Face/Image/Glyph/ViewContext are opaque stand-ins (N18).",
+    "assumptions": [
+        "Cell::size returns some Size (uninterpreted); coordinates are below 2^48 (screen-sized), so sums cannot overflow",
+        "TerminalWriter::put_cell / TerminalWritable / Text::{layout,render} and the UTF-8 / escape-sequence decoders inside the io::Write adapters are not under contract",
+        "writer invariant cursor.col <= max_width, size.width <= max_width holds initially (TerminalWriter::new starts from origin and empty size)",
     ],
 }
 
@@ -205,7 +227,6 @@ for _p in PROPS.values():
 NOT_APPLICABLE = {
     "C01": "monolithic TerminalRenderer::frame over trait objects/HashMap/Arc; the property needs a terminal screen model as ghost state over whole histories; no callee carries it",
     "C03": "relational over read schedules of a run-time-built DFA + SmallVec + boxed matchers; tokeniser half quantifies over NFA::compile; outside Verus and intractable for CBMC",
-    "C09": "Cell::layout / TerminalWriter work on Cell (Arc glyphs/images, unicode-width tables) and the io::Write adapters rest on the DFA decoders; no contract within reach of either verifier was built",
     "C12": "single function mixing f32 quantisation, HashMap iteration order, LRU and core::fmt; property defined through a sixel interpreter; nothing smaller carries a contract",
     "C15": "soundness of Thompson/power-set construction over BTreeMap/BTreeSet/Rc; no specs in Verus, intractable in CBMC",
     "C17": "threads, signals, select, termios, Drop ordering - no concurrency/OS model in either verifier",
